@@ -319,7 +319,7 @@ def seal_family(prop):
 
 # ------------------------------------------------------------------ C13
 FAULT_FLOWS = ["authorize", "fetchNodeLed", "fetchToken", "fetchWrapped", "fetchRewrapped", "createToken", "rotateRoots", "rotateRoots0", "reinitRoots",
-               "rotateNode", "serverCerts", "nodeNew", "nodeHandle", "nodeHandleTokenRetry", "nodeDialFirst"]
+               "rotateNode", "serverCerts", "serverCertsNodeId", "serverCertsAgain", "nodeNew", "nodeHandle", "nodeHandleTokenRetry", "nodeDialFirst"]
 
 
 def faults_extra(prop, tier, seed):
@@ -340,7 +340,7 @@ def faults_family():
         nontrivial=lambda p, l: l["op"]["pos"] > 0 and l["res"] != "skip",
         mc=dict(quick=[("MC_Faults.tla", "MC_Faults.cfg")], thorough=[("MC_Faults.tla", "MC_Faults.cfg")]),
         gen=[], extra=faults_extra,
-        rule={"*": "for each of 15 flows (authorize, fetch in node-led / token / wrapped / re-wrapped mode, token creation, root rotation from existing and from empty storage, reinitialisation, node credential rotation, server-certificate generation, node-side create, handle, handle-with-retry of a server-led response, and the first protocol.Dial of an authorised node against a real listener) the storage operations of the call are counted on a fault-free run of the REAL code, then the call is re-run once per (position, kind in generic / not-found / cancelled / context really cancelled while the operation itself succeeds) with exactly that operation failing; non-trivial = runs with an injected fault; thorough adds the storage-wrapper variant"},
+        rule={"*": "for each of 17 flows (authorize, fetch in node-led / token / wrapped / re-wrapped mode, token creation, root rotation from existing and from empty storage, reinitialisation, node credential rotation, server-certificate generation (by key id, by node id, and a second call after a fault-free first one), node-side create, handle, handle-with-retry of a server-led response, and the first protocol.Dial of an authorised node against a real listener) the storage operations of the call are counted on a fault-free run of the REAL code, then the call is re-run once per (position, kind in generic / not-found / cancelled / context really cancelled while the operation itself succeeds) with exactly that operation failing; non-trivial = runs with an injected fault; thorough adds the storage-wrapper variant"},
         assumptions=["single faults only; positions are enumerated from the real run, the spec's operation sequences are compared as drift",
                      "the bystander record of another node and the token record are read from the inner storage, bypassing injection"],
     )
